@@ -219,30 +219,35 @@ def signed_mult(a, b):
     return (a * b)[0:final_len]
 
 
+def _signed_operand(x):
+    # an integer operand of a signed comparison is a two's complement constant (as in signed_add)
+    return Const(x, signed=True) if isinstance(x, int) and not isinstance(x, bool) else as_wires(x)
+
+
 def signed_lt(a, b):
     """ Return a single bit result of signed less than comparison. """
-    a, b = match_bitwidth(as_wires(a), as_wires(b), signed=True)
+    a, b = match_bitwidth(_signed_operand(a), _signed_operand(b), signed=True)
     r = a - b
     return r[-1] ^ (~a[-1]) ^ (~b[-1])
 
 
 def signed_le(a, b):
     """ Return a single bit result of signed less than or equal comparison. """
-    a, b = match_bitwidth(as_wires(a), as_wires(b), signed=True)
+    a, b = match_bitwidth(_signed_operand(a), _signed_operand(b), signed=True)
     r = a - b
     return (r[-1] ^ (~a[-1]) ^ (~b[-1])) | (a == b)
 
 
 def signed_gt(a, b):
     """ Return a single bit result of signed greater than comparison. """
-    a, b = match_bitwidth(as_wires(a), as_wires(b), signed=True)
+    a, b = match_bitwidth(_signed_operand(a), _signed_operand(b), signed=True)
     r = b - a
     return r[-1] ^ (~a[-1]) ^ (~b[-1])
 
 
 def signed_ge(a, b):
     """ Return a single bit result of signed greater than or equal comparison. """
-    a, b = match_bitwidth(as_wires(a), as_wires(b), signed=True)
+    a, b = match_bitwidth(_signed_operand(a), _signed_operand(b), signed=True)
     r = b - a
     return (r[-1] ^ (~a[-1]) ^ (~b[-1])) | (a == b)
 
